@@ -139,6 +139,9 @@ func (r *c18Run) runText(cases []*c18Case) {
 					expected: "text", from: "property statement"})
 				continue
 			}
+			if opt.TimeFormat != "" || opt.TimeWrap != "" {
+				r.checkPristine(&one, "after-write-keywords")
+			}
 			text1 := string(wo.Value.(slip.String))
 			b2, po := r.impl.makeBag(text1, cs.Via+1)
 			if !po.Ok {
@@ -378,7 +381,18 @@ func runC18(c *lib.Ctx) {
 	var text, native, ops, simple []*c18Case
 	text, native, ops, simple = r.sweepCases()
 	multi, scan := r.sweepMulti()
-	nSweep := len(text) + len(native) + len(ops) + len(simple) + len(multi) + len(scan)
+	config := r.sweepConfig()
+	nSweep := len(text) + len(native) + len(ops) + len(simple) + len(multi) + len(scan) + len(config)
+	nCfgSweep := len(config)
+	for i := 0; i < c.Scale(1500, 120000); i++ {
+		config = append(config, r.randomConfigCase())
+	}
+	// configuration histories run in chunks between the other families: each chunk ends with
+	// both variables back at nil, so every family below is a "use after the reset"
+	chunk := func(i int) {
+		a, b := len(config)*i/6, len(config)*(i+1)/6
+		r.runConfig(config[a:b])
+	}
 	// composite, seeded
 	r.g.text = true
 	for i := 0; i < c.Scale(300, 40000); i++ {
@@ -400,12 +414,26 @@ func runC18(c *lib.Ctx) {
 	for i := 0; i < c.Scale(300, 40000); i++ {
 		scan = append(scan, &c18Case{Family: "scan", Doc: strings.Join(r.g.doc(5).wire(), " "), Via: r.g.r.Intn(6), Strict: r.g.r.Bool()})
 	}
+	marker := func(name string) *c18Case { return &c18Case{Family: "config", Cell: "after-" + name, Sweep: true} }
+	chunk(0)
 	r.runMulti(multi)
+	r.checkPristine(marker("multi"), "after-multi")
+	chunk(1)
 	r.runScan(scan)
+	r.checkPristine(marker("scan"), "after-scan")
+	chunk(2)
 	r.runText(text)
+	r.checkPristine(marker("text"), "after-text")
+	chunk(3)
 	r.runNative(native)
+	r.checkPristine(marker("native"), "after-native")
+	chunk(4)
 	r.runOps(ops)
+	r.checkPristine(marker("ops"), "after-ops")
+	chunk(5)
 	r.runSimplify(simple)
+	r.checkPristine(marker("simplify"), "after-simplify")
+	_ = nCfgSweep
 	if os.Getenv("C18_DUMP") != "" { // development aid: every distinct signature with its first case
 		for _, v := range c.Violations {
 			b, _ := json.Marshal(v.Replay["case"])
@@ -415,7 +443,7 @@ func runC18(c *lib.Ctx) {
 	c.Ev.Coverage["traces_validated_against_impl"] = r.total
 	c.Ev.Coverage["agreements"] = r.agree
 	c.Ev.Coverage["sweep_cases"] = nSweep
-	c.Ev.Coverage["composite_cases"] = len(text) + len(native) + len(ops) + len(simple) + len(multi) + len(scan) - nSweep
+	c.Ev.Coverage["composite_cases"] = len(text) + len(native) + len(ops) + len(simple) + len(multi) + len(scan) + len(config) - nSweep
 	avoided := []string{}
 	if r.g.avoid.bigInt {
 		avoided = append(avoided, "integers ojg holds as json.Number")
@@ -514,6 +542,12 @@ func (r *c18Run) randomTextCase() *c18Case {
 		if g.r.Chance(20) {
 			o.Color = 0
 		}
+		if g.r.Chance(15) {
+			o.TimeFormat = []string{"second", "nano", "2006-01-02T15:04:05.999999999Z07:00", "2006-01-02"}[g.r.Intn(4)]
+		}
+		if g.r.Chance(10) {
+			o.TimeWrap = "t"
+		}
 		cs.Opts = append(cs.Opts, o)
 	}
 	return cs
@@ -544,6 +578,8 @@ func (r *c18Run) replay() {
 		r.runMulti([]*c18Case{cs})
 	case "scan":
 		r.runScan([]*c18Case{cs})
+	case "config":
+		r.runConfig([]*c18Case{cs})
 	}
 	fmt.Printf("replay family=%s recorded signature: %s\n", cs.Family, rec.Signature)
 	for _, v := range r.c.Violations {
